@@ -25,7 +25,7 @@ class Absurd(Exception):
 
 
 def _on_alarm(signum, frame):
-    raise TimeoutError("call exceeded 10s")
+    raise TimeoutError("call used more than 20s of CPU")
 
 
 def enc(text):
@@ -69,15 +69,15 @@ def record(seed, nalign):
     def ev(op, frm, args, call):
         """call() makes the real call; an exception is recorded as the outcome (and will be rejected)."""
         exc = ""
-        signal.signal(signal.SIGALRM, _on_alarm)
-        signal.setitimer(signal.ITIMER_REAL, 10)  # a hanging call is recorded as a raised one
+        signal.signal(signal.SIGPROF, _on_alarm)
+        signal.setitimer(signal.ITIMER_PROF, 20)  # a call spinning for 20 CPU-s is recorded as a raised one
         try:
             to = call()
             to = enc(to) if isinstance(to, str) else to
         except Exception as ex:
             to, exc = [], f"{type(ex).__name__}: {ex}"[:200]
         finally:
-            signal.setitimer(signal.ITIMER_REAL, 0)
+            signal.setitimer(signal.ITIMER_PROF, 0)
         events.append({"op": op, "from": enc(frm), "args": args, "to": to, "ok": not exc, "exc": exc})
 
     for _ in range(nalign):
